@@ -939,6 +939,9 @@ impl BreadthFirstSearch {
             for rule_name in goal.candidate_rules.clone() {
                 path.push(rule_name.clone());
 
+                // Speculative execution: undo the rule's changes unless it proves the goal
+                facts.begin_undo_frame();
+
                 // Get the rule from KB
                 if let Some(rule) = kb.get_rule(&rule_name) {
                     // ✅ FIX: Try to execute rule (checks conditions AND executes actions)
@@ -948,6 +951,7 @@ impl BreadthFirstSearch {
                             // Now check if our goal is proven
                             if self.check_goal_in_facts(goal, facts) {
                                 goal.status = GoalStatus::Proven;
+                                facts.commit_undo_frame(); // keep changes
                                 break;
                             }
                         }
@@ -959,6 +963,9 @@ impl BreadthFirstSearch {
                         }
                     }
                 }
+
+                // Candidate did not prove the goal - rollback its changes
+                facts.rollback_undo_frame();
             }
 
             // Add sub-goals to queue
